@@ -124,10 +124,7 @@ class Type:
         return (
             self.is_array and
             not self.is_nodim_array and
-            all(
-                d.lbound.is_const and d.ubound.is_const
-                for d in self.array_dims
-            )
+            all(d.is_const for d in self.array_dims)
         )
 
     @property
